@@ -495,12 +495,58 @@ def opGeo (args : List String) : Option String := do
   | _ => none
 end GeoOps
 
+/-! ### C16 probe motions (Float) -/
+section ProbeOps
+open Arim.Geo Arim.Probe Arim.Num
+
+def parseProbeOp (s : String) : Option (Op Float) :=
+  match s.splitOn "=" with
+  | ["t", v] => (v3? v).map Op.translate
+  | ["r", m, c] => do
+      let m ← m3? m
+      let c ← (if c == "-" then some none else (v3? c).map some)
+      pure (Op.rotate m c)
+  | ["flip"] => some .flip
+  | ["toO"] => some .toO
+  | ["reset"] => some .reset
+  | ["ref", r] => match r with
+      | "first" => some (.setRef .first) | "last" => some (.setRef .last) | "mean" => some (.setRef .mean)
+      | k => (int? k).map (fun k => .setRef (.idx k))
+  | _ => none
+
+def showProbe (s : State Float) : String :=
+  join (s.locs.map showV3) ";" ++ "|" ++ join (s.normals.map showV3) ";" ++ "|" ++
+    showV3 s.pcs.origin ++ ";" ++ showV3 s.pcs.i ++ ";" ++ showV3 s.pcs.j ++ ";" ++ showV3 s.pcs.k ++ "|" ++
+    join ((locsPcs s).map showV3) ";" ++ "|" ++ join ((normalsPcs 0 s).map showV3) ";"
+
+/-- `probe <numx> <pitchx> <numy> <pitchy> <normal> op ...` → state after each op -/
+def opProbe (args : List String) : Option String := do
+  match args with
+  | nx :: px :: ny :: py :: nrm :: ops =>
+    let nx ← nat? nx; let ny ← nat? ny; let px ← float? px; let py ← float? py; let nrm ← v3? nrm
+    let locs := matrixProbe 0 natToF nx ny px py
+    let s0 : State Float := { locs := locs, normals := locs.map (fun _ => nrm),
+                              pcs := ⟨⟨0, 0, 0⟩, ⟨1, 0, 0⟩, ⟨0, 1, 0⟩⟩ }
+    let ops ← ops.mapM parseProbeOp
+    let cpi := Float.cos pi
+    let spi := Float.sin pi
+    let rec go (s : State Float) (ops : List (Op Float)) (acc : List String) : List String :=
+      match ops with
+      | [] => acc.reverse
+      | o :: os => match step 0 1 natToF cpi spi s o with
+        | none => ("E" :: acc).reverse
+        | some s' => go s' os (showProbe s' :: acc)
+    pure (join (go s0 ops [showProbe s0]) " ")
+  | _ => none
+end ProbeOps
+
 def route (op : String) (args : List String) : String :=
   let r : Option String :=
     match op with
     | "fermat" => opFermat args
     | "minplus" => opMinPlus args
     | "chunks" => opChunks args
+    | "probe" => opProbe args
     | "geo" => opGeo args
     | "ctfm" => opCtfm args
     | "vtfm" => opVtfm args
